@@ -206,6 +206,8 @@ def _apply_cast(val, dtype):
                 return x            # a conversion to one element type is idempotent
             return SymReal(f(t))
         return x
+    if isinstance(val, (list, tuple)) and _has_sym(val):
+        val = _np.array(val, dtype=object)      # a sequence of proxies assigned in one go
     if isinstance(val, _np.ndarray):
         if val.dtype != object:
             return val
@@ -412,7 +414,13 @@ def empty(shape, dtype=None, *a, **k):
     flat = arr.reshape(-1)
     for i in range(flat.size):
         flat[i] = core.uninit()
-    return arr.view(SymNd)
+    arr = arr.view(SymNd)
+    try:
+        if dtype is not None and _np.dtype(dtype).kind in 'iu' and _np.dtype(dtype).itemsize < 8:
+            arr._cast = _np.dtype(dtype)    # a narrow integer element type: what is stored goes through the (uninterpreted) conversion
+    except TypeError:
+        pass
+    return arr
 
 
 def empty_like(proto, dtype=None, *a, **k):
